@@ -119,13 +119,13 @@ example : flatten (record [([97], [[120]]), ([97], [[121]])]) = [[120], [121]] :
 
 /-- **Every depfile is either read or rejected with a diagnostic** (byte level, all inputs): the
     model of `depfile::parse` — scanner with its NUL sentinel, `back` including its `\r\n` quirk,
-    line counter, every loop — returns entries or a parse error with an offset for EVERY byte
+    line counter, every loop — returns entries or a parse error whose offset lies inside the NUL-terminated buffer, for EVERY byte
     string; the outcomes "read outside the buffer", "stepped back before the start", "line counter
     wrapped" and "out of fuel" (= a loop that does not advance) are unreachable
     (Lemmas/Scanner: `read_ok`, `back_ok`; Lemmas/DepfileTotal). -/
 theorem depfile_parse_total (text : Bytes) : match Depfile.parse text with
     | .ok _ _ => True
-    | .perr _ _ => True
+    | .perr _ o => o ≤ text.length + 1
     | .bad _ => False := Depfile.parse_total text
 
 
